@@ -56,6 +56,25 @@ def lemmas(idx):
                     hy = ['(%s + %s)%%K <> k0' % (sg, z)]
                     if name == 'any_orthonormal_vector': add(cfg, f, vs, [tree_coq(a)], st, v2, 'orthonormal basis vector (Duff et al.)', hyps=hy, tactic='alg_field')
                     else: add(cfg, f, vs, [tree_coq(a)], f['ret'], v1 + v2, 'orthonormal basis pair (Duff et al.)', hyps=hy, tactic='alg_field')
+                elif name in ('clamp_length_max', 'clamp_length_min') and len(ps) == 1 and ps[0][1] == k:
+                    vs = []; a = sym(structs, st, 'a', vs); b = sym(structs, k, 'b', vs); A = [l[2] for l in tree_leaves(a)]
+                    lsq = alg.S([alg.P(x, x) for x in A]); bb = '(%s * %s)%%K' % (b[2], b[2]); c = 'FGt' if name.endswith('max') else 'FLt'
+                    scaled = ['(%s * (%s / k_un FSqrt %s))%%K' % (b[2], x, lsq) for x in A]
+                    add(cfg, f, vs, [tree_coq(a), tree_coq(b)], st, scaled, '%s: length out of bound -> bound * self / length' % name, hyps=[alg.cmp_hyp(c, lsq, bb, True)], tactic=alg.cond_tac())
+                    add(cfg, f, vs, [tree_coq(a), tree_coq(b)], st, A, '%s: length within bound -> self' % name, hyps=[alg.cmp_hyp(c, lsq, bb, False)], tactic=alg.cond_tac())
+                elif name == 'clamp_length' and len(ps) == 2 and ps[0][1] == k and ps[1][1] == k:
+                    vs = []; a = sym(structs, st, 'a', vs); b = sym(structs, k, 'b', vs); c_ = sym(structs, k, 'c', vs); A = [l[2] for l in tree_leaves(a)]
+                    lsq = alg.S([alg.P(x, x) for x in A]); lo = '(%s * %s)%%K' % (b[2], b[2]); hi = '(%s * %s)%%K' % (c_[2], c_[2]); args = [tree_coq(a), tree_coq(b), tree_coq(c_)]
+                    add(cfg, f, vs, args, st, ['(%s * (%s / k_un FSqrt %s))%%K' % (b[2], x, lsq) for x in A], 'clamp_length: too short -> min * self / length', hyps=[alg.cmp_hyp('FLt', lsq, lo, True)], tactic=alg.cond_tac())
+                    add(cfg, f, vs, args, st, ['(%s * (%s / k_un FSqrt %s))%%K' % (c_[2], x, lsq) for x in A], 'clamp_length: too long -> max * self / length', hyps=[alg.cmp_hyp('FLt', lsq, lo, False), alg.cmp_hyp('FGt', lsq, hi, True)], tactic=alg.cond_tac())
+                    add(cfg, f, vs, args, st, A, 'clamp_length: within bounds -> self', hyps=[alg.cmp_hyp('FLt', lsq, lo, False), alg.cmp_hyp('FGt', lsq, hi, False)], tactic=alg.cond_tac())
+                elif name == 'move_towards' and len(ps) == 2 and tname(ps[0][1]) == tn and ps[1][1] == k:
+                    vs = []; a = sym(structs, st, 'a', vs); b = sym(structs, st, 'b', vs); d_ = sym(structs, k, 'd', vs)
+                    A = [l[2] for l in tree_leaves(a)]; Bv = [l[2] for l in tree_leaves(b)]; D = ['(%s - %s)%%K' % (y, x) for x, y in zip(A, Bv)]
+                    ln = '(k_un FSqrt %s)' % alg.S([alg.P(x, x) for x in D]); eps = '(lit32 953267991)' if k == 'f32' else '(lit64 4547007122018943789)'; args = [tree_coq(a), tree_coq(b), tree_coq(d_)]
+                    add(cfg, f, vs, args, st, Bv, 'move_towards: within reach -> the target itself', hyps=[alg.cmp_hyp('FLe', ln, d_[2], True)], tactic=alg.cond_tac())
+                    add(cfg, f, vs, args, st, Bv, 'move_towards: closer than 1e-4 -> the target itself', hyps=[alg.cmp_hyp('FLe', ln, d_[2], False), alg.cmp_hyp('FLe', ln, eps, True)], tactic=alg.cond_tac())
+                    add(cfg, f, vs, args, st, ['(%s + %s / %s * %s)%%K' % (x, dd, ln, d_[2]) for x, dd in zip(A, D)], 'move_towards: self + (rhs - self) / |rhs - self| * d', hyps=[alg.cmp_hyp('FLe', ln, d_[2], False), alg.cmp_hyp('FLe', ln, eps, False)], tactic=alg.cond_tac())
             except SymErr: continue
     files = {}; nfiles = max(1, (len(order) + 5) // 6)
     for i, lem in enumerate(order): files.setdefault('Itp_%03d' % (i % nfiles), []).append(lem)
@@ -66,7 +85,7 @@ def run(tier, seed):
     t0 = time.time(); idx, info = flow.prepare()
     files, notes, cover = lemmas(idx)
     per_fn = 8 if tier == 'quick' else 80
-    return f1.run('C12', tier, seed, idx, info, t0, files, notes, cover, alg.BOILER, per_fn,
+    return f1.run('C12', tier, seed, idx, info, t0, files, notes, cover, alg.BOILER_MOD, per_fn,
         'one algebraic lemma per lerp / midpoint / any_orthonormal_* of the float vector types in three backends over an arbitrary field; endpoint and orthonormality facts of the formulas in coq/theories/InterpAlg.v; correspondence: %d random calls per function' % per_fn,
         ['formulas in harness/props/C12.py and coq/theories/InterpAlg.v'],
         ['slerp, quaternion lerp, move_towards, rotate_towards, from_rotation_arc, clamp_length*, any_orthogonal_vector: geometric statements not proved (differential + C18 panic-freedom only)'], footer=alg.FOOTER)
